@@ -16,7 +16,8 @@ LEVEL = 'exploration'
 RULE = ('unified and combined diffs without conflict regions, runs of changed lines of length 0..3x buffer, --line-buffer-size in '
         '{0,1,2,32}, unified and side-by-side view; the input is fed line by line and after each line the check waits for logical '
         'quiescence (stdin pipe drained AND main thread asleep in read(0)), then takes what is on stdout; every prefix is also '
-        'rendered by an independent complete run; an evaluation is one (diff, prefix) point; distinct = (diff shape, options, k); '
+        'rendered by an independent complete run, and inside a hunk everything rendered for the input before the open run of '
+        'changed lines must already be out; an evaluation is one (diff, prefix) point; distinct = (diff shape, options, k); '
         'non-trivial = the prefix ends inside a hunk')
 ASSUMPTIONS = ['quiescence is decided from /proc/<pid>/stat, /proc/<pid>/syscall and FIONREAD, never from elapsed time',
                'hook 1 (state trace) is compiled in; it records buffer occupancy after every handled line']
